@@ -16,7 +16,7 @@ RULE = ("paired runs: the same generated scenario (operation sequence x device s
 ASSUMPTIONS = ["progress callbacks are plain functions for AdbDevice and coroutine functions for AdbDeviceAsync (its documented calling convention)",
                "AdbDeviceUsb has no async twin and is outside this comparison"]
 SHARDS = {"quick": 8, "thorough": 16}
-TIME_BUDGET = {"quick": 90, "thorough": 900}
+TIME_BUDGET = {"quick": 300, "thorough": 1800}
 FLOORS = {"quick": {"pairs": 800, "steps_compared": 3000, "bytes_compared": 1000000, "pairs_with_exception": 150, "tcp_pairs": 2, "distinct": 500},
           "thorough": {"pairs": 15000, "steps_compared": 60000, "pairs_with_exception": 3000, "tcp_pairs": 8}}
 
